@@ -45,7 +45,7 @@ def cache_key(rep, lib):
             else:
                 good, why = False, "key origin %s" % (a,)
         kty = c.args[1].get("place", {}).get("ty", "")
-        if good and kty != "std::string::String":
+        if good and kty.replace("&", "").replace("'static ", "").strip() not in ("std::string::String", "str"):
             good, why = False, "key type is %s, not the pattern text" % kty
         if good:
             r.ok(key, "key = regex.to_string()", c.where())
